@@ -96,3 +96,72 @@ def no_text(opc):
         if saved is not None:
             opc.opcode_arg_fmt = saved
         B.format_CALL_FUNCTION, B.format_CALL_FUNCTION_EX = s1, s2
+
+
+class SymCode:
+    """duck-typed code object (xdis only needs attributes)"""
+
+    def __init__(self, **kw):
+        self.co_argcount = 0
+        self.co_posonlyargcount = 0
+        self.co_kwonlyargcount = 0
+        self.co_nlocals = 0
+        self.co_stacksize = 0
+        self.co_flags = 0
+        self.co_code = b""
+        self.co_consts = ()
+        self.co_names = ()
+        self.co_varnames = ()
+        self.co_freevars = ()
+        self.co_cellvars = ()
+        self.co_filename = "f.py"
+        self.co_name = "f"
+        self.co_firstlineno = 1
+        for k, v in kw.items():
+            setattr(self, k, v)
+
+
+class LenOnly:
+    """stands for a co_code of symbolic length where only len() is consulted"""
+
+    def __init__(self, n):
+        self.n = n
+
+    def __len__(self):
+        return self.n
+
+
+def install_iter_unpack_model():
+    """xdis.codetype.code310 calls struct.iter_unpack('=Bb', table) (C, would realise the bytes):
+    replace by a pure-Python model for exactly that format (harness process only)."""
+    import xdis.codetype.code310 as C310
+    import struct as _struct
+
+    class _Shim:
+        error = _struct.error
+        pack = staticmethod(_struct.pack)
+        unpack = staticmethod(_struct.unpack)
+
+        @staticmethod
+        def iter_unpack(fmt, data):
+            if fmt != "=Bb":
+                return _struct.iter_unpack(fmt, bytes(data))
+            if len(data) % 2:
+                raise _struct.error("iterative unpacking requires a buffer of a multiple of 2 bytes")
+            out = []
+            for i in range(0, len(data), 2):
+                d = data[i + 1]
+                out.append((data[i], d - 256 if d >= 128 else d))
+            return iter(out)
+    C310.struct = _Shim
+
+
+def make_portable(vt, **fields):
+    """real portable code object of the class xdis uses for version vt, built through the real constructor"""
+    from xdis.codetype import to_portable
+    base = dict(co_argcount=0, co_posonlyargcount=0, co_kwonlyargcount=0, co_nlocals=0, co_stacksize=0,
+                co_flags=0, co_code=b"", co_consts=(), co_names=(), co_varnames=(), co_filename="f.py",
+                co_name="f", co_qualname="f", co_firstlineno=1, co_lnotab=b"", co_freevars=(), co_cellvars=(),
+                co_exceptiontable=b"", version_triple=tuple(vt) + (0,) * (3 - len(vt)))
+    base.update(fields)
+    return to_portable(**base)
